@@ -667,6 +667,7 @@ def run_D8(chk):
                     f"not hit and its minimum is used -- e.g. D_block={{(0,):1,(1,):2,(2,):3}} keeps (1,1,1) with policy='lowrank' and (1,2,3) with 'fullrank'")
 
 MUTANTS = [
+    ('ordering key written back into S', 'yastn/tensor/linalg.py', '    _S = abs(S) if which in ["SM", "LM"] else S\n    if which in ["SM", "SR"]:\n        _S = - _S\n', '    if which in ["SM", "LM"]:\n        S = abs(S)\n    _S = -S if which in ["SM", "SR"] else S\n', 'D9'),
     ('reference maximum from the raw spectrum', 'yastn/tensor/linalg.py', '    above_tol = (temp_data > tol * S.config.backend.max_abs(temp_data)) * Smask.data', '    above_tol = (temp_data > tol * S.config.backend.max_abs(S._data)) * Smask.data', 'D2'),
     ('block selection by threshold', 'yastn/tensor/linalg.py', '            inds = S.config.backend.argsort(S.data[slice(*sl.slcs[0])])\n            Smask._data[slice(*sl.slcs[0])][inds[:-D_bl]] = False', '            vals = S.data[slice(*sl.slcs[0])]\n            inds = S.config.backend.argsort(vals)\n            Smask._data[slice(*sl.slcs[0])] = vals >= vals[inds[-D_bl]]', 'D1'),
     ('k_block looked up by the raw block charge', 'yastn/tensor/linalg.py', '            st = _svd_sector_charges(a.config, struct, sU, nU)\n', '            nsym = a.config.sym.NSYM\n            st = [x[nsym:] for x in struct.t] if nU else [x[:nsym] for x in struct.t]\n', 'D8'),
